@@ -686,3 +686,6 @@ mod tests {
         assert_eq!(prepped.headers()[USER_AGENT], "foobaz");
     }
 }
+
+#[cfg(kani)]
+include!(concat!(env!("ATTOHTTPC_VERIF_HARNESS"), "/builder.rs"));
